@@ -728,12 +728,15 @@ def str_length_strategy(
     :returns: ``hypothesis`` strategy
     """
     if strategy is None:
-        return st.text(min_size=min_value, max_size=max_value).map(
-            to_numpy_dtype(pandera_dtype).type
-        )
-    return strategy.filter(partial(min_len, min_value)).filter(
-        partial(max_len, max_value)
-    )
+        return st.text(
+            min_size=0 if min_value is None else min_value,
+            max_size=max_value,
+        ).map(to_numpy_dtype(pandera_dtype).type)
+    if min_value is not None:
+        strategy = strategy.filter(partial(min_len, min_value))
+    if max_value is not None:
+        strategy = strategy.filter(partial(max_len, max_value))
+    return strategy
 
 
 def _timestamp_to_datetime64_strategy(
